@@ -228,6 +228,21 @@ CHECKS["C05"] = dict(
     technique=TECH,
 )
 
+CHECKS["C17"] = dict(
+    category="proof",
+    text=("Transition-table conformance, proved for every character: the body of the character loop of fortran_cleaner."
+          "process is verified as a unit for each of the 12 reachable state-stack shapes against the reference free-form "
+          "scanner (character context incl. ! & // inside literals, `!` comment and hand-over to the sentinel check, `&` held "
+          "back until it is known to be a continuation marker, optional leading `&`, comment lines inside a continued "
+          "statement), together with the directives-only steps of the C cleaner and the one_space_line buffer (shared with "
+          "C05). The composition over whole files is a bounded stand-in (all texts of <= 6 / <= 8 characters over 8 letters - "
+          "19M texts in thorough - and random token texts vs the reference classifier), and 'conditionals select lines as in C' "
+          "is a bounded stand-in on model code bases with .F90 sources vs the reference preprocessor."),
+    design_ref="DESIGN.md section 5 C17, section 9",
+    note=COMMON_NOTE + "A9 reference scanner table trusted; dir_check (sentinel recognition) opaque in the step contracts; fixed-form Fortran unsupported by the code.",
+    technique=TECH,
+)
+
 NA = {}
 
 DEFAULT_NA = "check not built yet (work in progress; see DESIGN.md section 5 for the plan)"
